@@ -1,3 +1,4 @@
+import Resgate.Model.Encode
 import Resgate.Proofs.Rpc
 import Resgate.Generated.Tables
 
@@ -50,6 +51,23 @@ theorem rpc_dispatch_valid {m : Bytes} {k : RpcKind} {rid method : Bytes}
     (h : rpcDispatch m = .req k rid method) :
     isValidRID rid true = true ∧ ((k = .call ∨ k = .auth) → isValidRIDPart method = true) :=
   Resgate.rpcDispatch_req h
+
+/-- **HTTP.** Whatever path, query and prefix a request carries: if the resource id that
+    `PathToRID` derives from them passes `IsValidRID` (otherwise the handler answers 404 without any
+    service traffic), every subject of the GET is hygienic; likewise for POST with the resource id
+    and action derived by `PathToRIDAction` and the additional `IsValidRIDPart` check. -/
+theorem http_subjects_hygienic (cid path query pref : Bytes) (hcid : cid.all okByte = true) (hne : cid ≠ []) :
+    (isValidRID (Enc.pathToRID path query pref) true = true →
+      ∀ s ∈ subjectsFor cid .get (Enc.pathToRID path query pref) [], hygienic s = true) ∧
+    (isValidRID (Enc.pathToRIDAction path query pref).1 true = true →
+      isValidRIDPart (Enc.pathToRIDAction path query pref).2 = true →
+      ∀ s ∈ subjectsFor cid .call (Enc.pathToRIDAction path query pref).1 (Enc.pathToRIDAction path query pref).2,
+        hygienic s = true) := by
+  constructor
+  · intro hv
+    exact Resgate.subjects_hygienic_of_valid cid hcid hne .get _ [] hv (by intro h; rcases h with h | h <;> cases h)
+  · intro hv hp
+    exact Resgate.subjects_hygienic_of_valid cid hcid hne .call _ _ hv (fun _ => hp)
 
 /-- A method string without a dot never causes service traffic. -/
 theorem rpc_no_dot {m : Bytes} (h : cDot ∉ m) :
